@@ -5,7 +5,7 @@ import re
 from contracts import sort_c, typemap_c
 from pyvc import frames
 
-SHAPES_Q = [("p",), ("p", "p"), ("p", "k")]
+SHAPES_Q = [("p",), ("p", "p"), ("p", "k"), ("k",), ("k", "j")]
 
 
 def T(name, build, mode="U"):
@@ -45,6 +45,21 @@ def e2e_tasks(clauses, tier, perm=False):
 
 def register_tasks():
     return [T(f"MultiTypeMap.register[{'/'.join(sh) or 'nullary'}]", typemap_c.t_mtm_register(sh), "B") for sh in [(), ("p",), ("p", "p"), ("p", "k"), ("p", "p", "k")]]
+
+
+def mro_unbounded_tasks():
+    """MultiTypeMap.mro for any number of methods and entries (contracts/mropos_c.py)."""
+    from contracts import mropos_c
+
+    return [T("MultiTypeMap.mro/positions", mropos_c.t_positions), T("MultiTypeMap.mro._pull/first_group", mropos_c.t_pull_first_group), T("lemma.resolution_any_number_of_methods", mropos_c.t_resolution_lemma)]
+
+
+def candidate_tasks():
+    return [T("Candidate.dominates", typemap_c.t_candidate), T("lemma.sum_of_levels", typemap_c.t_sum_lemma)]
+
+
+def resolve_interrupt_tasks():
+    return [T(f"resolve.interrupt{sh}", typemap_c.t_resolve_interrupt(sh), "B") for sh in ([1], [1, 1], [1, 1, 1], [1, 2])]
 
 
 def wrap_tasks():
